@@ -17,6 +17,23 @@ def fm_index(prog):
     return {fm["name"]: fm for fm in prog["framers"]}
 
 
+class _CloneIndex(dict):
+    def __init__(self, fms, moots):
+        dict.__init__(self, fms)
+        self.moots = moots
+
+    def get(self, name, default=None):
+        if name in self:
+            return self[name]
+        for mn, fm in self.moots.items():
+            i = name.rfind("_" + mn)
+            if i > 0 and name[i + 1 + len(mn):].isdigit():
+                got = dict(fm)
+                got["schedule"] = "aux"
+                return got
+        return default
+
+
 def cond_aux_sites(prog):
     """[(framer, main frame, aux name)] for every `aux X if ...`."""
     out = []
@@ -95,7 +112,13 @@ def mon_bracket(prog, rr):
     auxiliaries, including frames suspended under a conditional auxiliary); exit runs are
     bottom-up chains, enter runs top-down chains; nothing stays open after the run."""
     probs = []
-    fms = fm_index(prog)
+    if any(fm.get("schedule") == "moot" for fm in prog["framers"]):
+        # clone programs: build-time clones are framers of the de-sugared program; a reared clone <main>_<moot><n>
+        # has the frame forest of its moot
+        mprog = lang.desugar(prog)
+        fms = _CloneIndex(fm_index(mprog), mprog["moots"])
+    else:
+        fms = fm_index(prog)
     open_ = {}     # (framer, frame) -> True
     ticks = list(rr.events)
 
